@@ -191,7 +191,7 @@ func VP_C20_runner() {
 			m.set(k, v)
 		case 2: // evaluate a formula
 			fi := vpChoice("f", 17)
-			got, err := r.resolve(ctx, vpC20Formula(fi))
+			got, err := vpExact(r, ctx, vpC20Formula(fi))
 			want := m.eval(fi)
 			if _, skip := want.(vpSkip); skip {
 				continue
